@@ -619,7 +619,7 @@ def check_C11(tier, only):
     cov = ek_part(out, 'C11', tier, [('incrate', h) for h in inc] + [('ext', h) for h in ext], only,
                   ['cache level (in-crate): every history of <= %d calls of Cache::get_or_insert_with_{f64,d64,d2_64,hd64,hd364} with symbolic method, symbolic Derivative keys (2 components) and an oracle of arbitrary f64 '
                    'bit patterns returns bitwise the oracle value of the requested key; also across a clone taken between calls' % (3 if tier == 'thorough' else 2),
-                   'getter level: for 6 scalar (quick) / 24 incl. component-indexed (thorough) ordered pairs (h, g) of the 13 residual getters: g evaluated after h on the same state equals the closed form (one-monomial model A = V^3 T^3 N0^2 N1^2, concrete component indices: the solver decides the compiled plumbing, not the values)',
+                   'getter level: for 6 (quick) / all 56 (thorough) ordered pairs (h, g) of the 8 scalar residual getters (pairs involving the component-indexed getters dp_dni, dmu_dni, mu, dmu_dt did not finish in 50 min and are not run): g evaluated after h on the same state equals the closed form (one-monomial model A = V^3 T^3 N0^2 N1^2, concrete component indices: the solver decides the compiled plumbing, not the values)',
                    'thread schedules are not covered (Kani does not model concurrency): not claimed'],
                   timeout=7200 if tier == 'thorough' else 2400)
     cov.setdefault('states', 1); cov.setdefault('transitions', 1)
